@@ -169,6 +169,43 @@ func (g *G) WideTree(maxDepth, maxFan int) *xdoc.Doc {
 	return d.Finish()
 }
 
+// SplitTextTree: documents as an API-built tree or an HTML parser hands them over - with RUNS of adjacent text
+// nodes (text split at entity references / CDATA sections) and of adjacent comments among the children of
+// several parents. Every node the navigator delivers is a candidate of its own: the second text node of a
+// run has position()=2 among text() and the run counts fully in last().
+func (g *G) SplitTextTree() *xdoc.Doc {
+	d := xdoc.NewDoc()
+	budget := 90
+	var fill func(n *xdoc.Node, depth int)
+	fill = func(n *xdoc.Node, depth int) {
+		k := 2 + g.R.Intn(6)
+		for i := 0; i < k && budget > 0; i++ {
+			budget--
+			switch r := g.R.Intn(10); {
+			case r < 4:
+				e := n.AddElem("", Names[g.R.Intn(len(Names))], "")
+				if g.Chance(0.4) {
+					e.AddAttr("", "id", "", fmt.Sprint(g.R.Intn(4)))
+				}
+				if depth < 3 && g.Chance(0.6) {
+					fill(e, depth+1)
+				}
+			case r < 9:
+				for run := 1 + g.R.Intn(3); run > 0; run-- {
+					n.AddText(TextVals[g.R.Intn(len(TextVals))])
+				}
+			default:
+				for run := 1 + g.R.Intn(2); run > 0; run-- {
+					n.AddComment("c")
+				}
+			}
+		}
+	}
+	top := d.Root.AddElem("", "r", "")
+	fill(top, 1)
+	return d.Finish()
+}
+
 // NameLikeTree: a random tree in which most text and comment nodes carry an ELEMENT NAME as their data, under a
 // navigator that reports this data as LocalName() (xmlquery/htmlquery behaviour): a name test that forgets the
 // node-type check selects them.
@@ -377,6 +414,64 @@ func (g *G) NSTree(hasNS bool) *xdoc.Doc {
 	fill(d.Root.AddElem(prefixes[g.R.Intn(len(prefixes))], "a", ""), 1)
 	top := d.Root.Children[0]
 	top.NS = bind[top.Prefix]
+	if hasNS && g.Chance(0.5) {
+		// prefix REBINDING: inside one or two subtrees a prefix denotes another namespace than outside (xmlns:p
+		// redeclared on an inner element). What a prefix of the document means is a property of the node, not of the
+		// document: p:a here and p:a there may be in different namespaces.
+		var elems []*xdoc.Node
+		var walk func(n *xdoc.Node)
+		walk = func(n *xdoc.Node) {
+			for _, c := range n.Children {
+				if c.Kind == xdoc.Element {
+					elems = append(elems, c)
+					walk(c)
+				}
+			}
+		}
+		walk(d.Root)
+		for k := 1 + g.R.Intn(2); k > 0 && len(elems) > 0; k-- {
+			sub := elems[g.R.Intn(len(elems))]
+			p := prefixes[g.R.Intn(len(prefixes))]
+			u := NSURIs[g.R.Intn(len(NSURIs))]
+			type undo struct {
+				n  *xdoc.Node
+				ns string
+			}
+			var log []undo
+			ok := true
+			var re func(n *xdoc.Node)
+			re = func(n *xdoc.Node) {
+				if n.Prefix == p {
+					log = append(log, undo{n, n.NS})
+					n.NS = u
+				}
+				seen := map[string]bool{}
+				for _, a := range n.Attrs {
+					if a.Prefix == p && p != "" {
+						log = append(log, undo{a, a.NS})
+						a.NS = u
+					}
+					if a.Prefix != "" {
+						if seen[a.NS+"|"+a.Name] {
+							ok = false // two attributes with one expanded name: not a document
+						}
+						seen[a.NS+"|"+a.Name] = true
+					}
+				}
+				for _, c := range n.Children {
+					if c.Kind == xdoc.Element {
+						re(c)
+					}
+				}
+			}
+			re(sub)
+			if !ok {
+				for _, x := range log {
+					x.n.NS = x.ns
+				}
+			}
+		}
+	}
 	return d.Finish()
 }
 
